@@ -194,8 +194,20 @@ static std::string show() {
   }
   return r;
 }
+// the copying conversion fills the slot; a second field obtained by a MOVING conversion from a temporary copy of the source
+// (abstractly the same operation) must hold exactly the same cells — otherwise the harness dies with a message, which the
+// runner reports against this operation
+template <typename B> static std::string show_one(const field<B> & f);
 template <typename BD, typename BS> static void do_convert(std::optional<field<BD>> & d, const field<BS> & s) {
-  if constexpr (CONVERTIBLE) d.emplace(s);
+  if constexpr (CONVERTIBLE) {
+    d.emplace(s);
+    field<BS> tmp(s);
+    field<BD> moved(std::move(tmp));
+    if (show_one<BD>(moved) != show_one<BD>(*d)) {
+      std::cerr << "Assertion `moving conversion == copying conversion' failed: " << show_one<BD>(moved) << " vs " << show_one<BD>(*d) << std::endl;
+      std::abort();
+    }
+  }
 }
 template <typename B> static void load_into(std::optional<field<B>> & d, const field<B> & s) {
   std::stringstream ss;
